@@ -10,6 +10,7 @@
 (*        g.lru  : keys in the order of their last use                     *)
 (*        g.gh   : successful lookups since the key's last store           *)
 (*        g.val  : value of the key's last store                           *)
+(*        g.age  : seconds of (virtual) time since the key's last store    *)
 (* The same operators are used (a) as an action property that TLC proves   *)
 (* on every transition of the bounded specification graph and (b) by the   *)
 (* trace specification on every step recorded from the implementation.     *)
@@ -19,13 +20,14 @@
 (***************************************************************************)
 EXTENDS Engine
 
-G0 == [fifo |-> <<>>, lru |-> <<>>, gh |-> <<>>, val |-> <<>>]
+G0 == [fifo |-> <<>>, lru |-> <<>>, gh |-> <<>>, val |-> <<>>, age |-> <<>>]
 
 KeepSeq(s, S) == SelectSeq(s, LAMBDA x : x \in S)
 
 GRestrict(g, S) ==
   [fifo |-> KeepSeq(g.fifo, S), lru |-> KeepSeq(g.lru, S),
-   gh |-> Restrict(g.gh, DOMAIN g.gh \cap S), val |-> Restrict(g.val, DOMAIN g.val \cap S)]
+   gh |-> Restrict(g.gh, DOMAIN g.gh \cap S), val |-> Restrict(g.val, DOMAIN g.val \cap S),
+   age |-> Restrict(g.age, DOMAIN g.age \cap S)]
 
 IsHit(e) == e.op = "get" /\ e.ret # None
 
@@ -35,12 +37,21 @@ GNext(g, e, post) ==
                    [fifo |-> Append(DelAll(g.fifo, e.k), e.k),
                     lru  |-> Append(DelAll(g.lru, e.k), e.k),
                     gh   |-> (e.k :> 0) @@ g.gh,
-                    val  |-> (e.k :> e.v) @@ g.val]
+                    val  |-> (e.k :> e.v) @@ g.val,
+                    age  |-> (e.k :> 0) @@ g.age]
               [] IsHit(e) /\ e.k \in DOMAIN g.gh ->
                    [g EXCEPT !.lru = Append(DelAll(g.lru, e.k), e.k),
                              !.gh[e.k] = @ + 1]
+              [] e.op = "tick" -> [g EXCEPT !.age = [k \in DOMAIN @ |-> @[k] + e.d]]
               [] OTHER -> g
   IN GRestrict(g1, Dom(post))
+
+\* the observed state with the entries' ages replaced by the ghost ages (time since the last STORE
+\* event): the age-dependent clauses of the monitors must not depend on the implementation's own
+\* birth stamps
+WithGhostAges(c, g) ==
+  [c EXCEPT !.store = [k \in DOMAIN c.store |->
+                         IF k \in DOMAIN g.age THEN [c.store[k] EXCEPT !.age = g.age[k]] ELSE c.store[k]]]
 
 -----------------------------------------------------------------------------
 (* what a store step removed *)
@@ -199,7 +210,8 @@ P_C16(cfg, pre, e, post, g) == ~e.panic
 -----------------------------------------------------------------------------
 EngineMonitorIds == {"C01", "C04", "C05", "C06", "C07", "C08", "C16"}
 
-Monitor(id, cfg, pre, e, post, g) ==
+Monitor(id, cfg, pre0, e, post, g) ==
+  LET pre == WithGhostAges(pre0, g) IN
   CASE id = "C01" -> P_C01(cfg, pre, e, post, g)
     [] id = "C04" -> P_C04(cfg, pre, e, post, g)
     [] id = "C05" -> P_C05(cfg, pre, e, post, g)
